@@ -564,6 +564,12 @@ def _is_subtype(sub_type: Any, super_type: Any, context: Dict[str, Any] = None) 
         True
         >>> _is_subtype(Iterable[int], List[int])
         False
+        >>> _is_subtype(List[int], list)
+        True
+        >>> _is_subtype(List[int], Iterable)
+        True
+        >>> _is_subtype(List[int], dict)
+        False
         >>> class MyClass: pass
         >>> _is_subtype(MyClass, Union[str, MyClass])
         True
@@ -630,6 +636,9 @@ def _is_subtype(sub_type: Any, super_type: Any, context: Dict[str, Any] = None) 
 
     sub_args = get_type_arguments(cls=sub_type)
     super_args = get_type_arguments(cls=super_type)
+
+    if not super_args:
+        return True  # the super type is a plain class or an unparametrised generic: List[int] is a list, a Sequence, a typing.List
 
     if len(sub_args) != len(super_args) and Ellipsis not in sub_args + super_args:
         return False
